@@ -46,7 +46,7 @@ def _case(draw, tier):
     # the layout may sit far from the coordinate origin (tens of thousands of coherence lengths, e.g. xi = 10 nm and layout
     # coordinates of a fraction of a millimetre): the geometry is the same wherever the device is
     if draw(st.integers(0, 3)) == 0:
-        k, ang = draw(st.sampled_from([2.0e4, 3.3e4, 6.0e4])), draw(gen.rf(0.0, 6.28))
+        k, ang = draw(st.sampled_from([2.0e4, 2.6e4, 3.3e4])), draw(gen.rf(0.0, 6.28))
         d["origin"] = [k * d["layer"]["xi"] * float(np.cos(ang)), k * d["layer"]["xi"] * float(np.sin(ang))]
     # ... or a relaxed (smoothed) copy of its mesh was requested through the documented Mesh.smooth(), which returns a new mesh
     if hist is None and draw(st.integers(0, 4)) == 0:
@@ -96,6 +96,9 @@ def check_case(spec):
         # are exact to ~1e-11 here; the oracles below then work with coordinates of order one)
         P = P - np.array(dspec["origin"], dtype=float)
         res.label("layout far from the coordinate origin")
+    # cells / faces against the clipped Voronoi oracle: 1e-8 relative; 1e-7 for far layouts, whose site coordinates carry an
+    # absolute rounding of ~1e-11 (observed 4e-10; any wrong rule is off by 1e-2 or more)
+    dual_tol = 1e-7 if dspec.get("origin") else 1e-8
     T = mesh.elements
     E = em.edges
     n, ne, nt = len(P), len(E), len(T)
@@ -281,7 +284,7 @@ def check_case(spec):
         got = mesh.areas[i]
         err = abs(got - want) / max(want, 1e-300)
         worst_a = max(worst_a, err)
-        if err > 1e-8:
+        if err > dual_tol:
             where = "boundary" if on_site[i] else "interior"
             res.fail("C07.cell_area", f"{where} site {i}: cell area {got:.12g}, clipped Voronoi region has area {want:.12g} (relative error {err:.2e})")
             break
@@ -296,7 +299,7 @@ def check_case(spec):
             got = em.dual_edge_lengths[idx]
             err = abs(got - want) / max(em.edge_lengths[idx], 1e-300)
             worst_s = max(worst_s, err)
-            if err > 1e-8:
+            if err > dual_tol:
                 res.fail("C07.dual_length", f"edge {idx} ({i},{j}) {'boundary' if on_edge[idx] else 'interior'}: dual length {got:.12g}, clipped Voronoi face has length {want:.12g}")
                 break
     res.stat("dual_length_error", worst_s)
